@@ -300,6 +300,14 @@ func (r *seqRun) resetIdent(p string) {
 
 // backendMonitors inspects the backend calls made since the previous operation:
 // C07 (clean in-export paths), C11 (ownership), C08 (read-only).
+// reqKind strips the "#N " position prefix of an operation name (signatures must not depend on positions).
+func reqKind(opName string) string {
+	if i := strings.Index(opName, " "); i >= 0 && strings.HasPrefix(opName, "#") {
+		return opName[i+1:]
+	}
+	return opName
+}
+
 func (r *seqRun) backendMonitors(opName string, allowed map[string]bool) {
 	calls := r.w.FS.CallsSince(r.lastSeq)
 	r.lastSeq = r.w.FS.LastSeq()
@@ -318,7 +326,7 @@ func (r *seqRun) backendMonitors(opName string, allowed map[string]bool) {
 				}
 				r.vio("C06.served-against-other-path", cause, "%s used a handle issued for %v but the backend call %s(%q) went to another path (%s)", opName, keys(allowed), c.Op, p, cause)
 			} else if allowed != nil && !allowed[p] {
-				r.vio("C07.backend-path-not-derived", "op="+c.Op+",req="+opName, "%s: backend call %s(%q) is neither a handle's path nor that path joined with one validated component (allowed %v)", opName, c.Op, p, keys(allowed))
+				r.vio("C07.backend-path-not-derived", "op="+c.Op+",req="+reqKind(opName), "%s: backend call %s(%q) is neither a handle's path nor that path joined with one validated component (allowed %v)", opName, c.Op, p, keys(allowed))
 			}
 		}
 		if c.Op == "Symlink" && !validTarget(c.Path2) {
@@ -326,11 +334,11 @@ func (r *seqRun) backendMonitors(opName string, allowed map[string]bool) {
 		}
 		if (c.Op == "Chown" || c.Op == "Lchown") && r.euid != 0 {
 			if uint32(c.UID) != r.euid || uint32(c.GID) != r.egid {
-				r.vio("C11.foreign-owner-assigned", "op="+c.Op+",req="+opName, "%s by effective uid %d gid %d made the backend record owner %d:%d on %s", opName, r.euid, r.egid, c.UID, c.GID, c.Path)
+				r.vio("C11.foreign-owner-assigned", "op="+c.Op+",req="+reqKind(opName), "%s by effective uid %d gid %d made the backend record owner %d:%d on %s", opName, r.euid, r.egid, c.UID, c.GID, c.Path)
 			}
 		}
 		if r.readOnly && c.Mutating {
-			r.vio("C08.backend-modified-while-read-only", "op="+c.Op+",req="+opName, "%s on a read-only export issued modifying backend call %s(%q)", opName, c.Op, c.Path)
+			r.vio("C08.backend-modified-while-read-only", "op="+c.Op+",req="+reqKind(opName), "%s on a read-only export issued modifying backend call %s(%q)", opName, c.Op, c.Path)
 		}
 	}
 }
